@@ -37,6 +37,7 @@ static inline void fill_n(unsigned char* d, const unsigned char* s, size_t n){ K
 static inline void fill_n(float* d, const float* s, size_t n){ K(k_fill_f32)(d,s,n); }
 static inline void fill_n(size_t* d, const size_t* s, size_t n){ K(k_fill_u64)(d,s,n); }
 static inline void fill_n(int* d, const int* s, size_t n){ K(k_fill_u32)((unsigned*)d,(const unsigned*)s,n); }
+static inline void fill_n(long* d, const long* s, size_t n){ K(k_fill_u64)((size_t*)d,(const size_t*)s,n); }
 template <typename A, typename T> static inline bool fill(A& a, const T* d){
   size_t n = nm::size(a); fill_n(&a.data_[0], d, n); return true; }
 template <typename T, size_t CAP> static inline bool mk1(hyb_t<T,CAP,1>& a, const size_t* s, const T* d){ return a.resize(s[0]) && fill(a,d); }
